@@ -102,24 +102,25 @@ claim("C19", "DESIGN.md §4 C19",
 # additions made while deepening the checks (appended to the technique / level text of the claim above)
 COMMON_TECH = " All rules read the subject's syntax trees in a normal form (if-let/match/matches!/==Some, while-let/loop, let-else, tail return, literal spelling, arm order; tools/rpverif/src/normalize.rs), so they do not depend on how a decision is spelled."
 ADD = {
- "C01": ("interpretation of the identifier predicates over all ASCII characters and every XID class (I2); interpretation of the start_of_line update for every token kind (S1); counter-guard and lambda-pairing rules of the soft-keyword look-ahead (S2); exits of lex_normal_number (decisions -> result) for the leading-zero rule (N1)",
-         " Also: (I2) is_identifier_start/continuation interpreted = Python's identifier grammar; (S2) every write of the look-ahead loops happens at bracket depth 0 and lambda colons are paired by count. (N1) only a non-zero decimal integer is rejected for leading zeros; `007j`, `00.5`, `00` stay valid."),
+ "C01": ("interpretation of the identifier predicates over all ASCII characters and every XID class (I2); interpretation of the start_of_line update for every token kind (S1); counter-guard and lambda-pairing rules of the soft-keyword look-ahead (S2); exits of lex_normal_number (decisions -> result) for the leading-zero rule (N1); table agreement of the grammar's expression-level wiring with the reviewed relation (E1); source-order rule for lists built by push/extend in actions (O2)",
+         " Also: (I2) is_identifier_start/continuation interpreted = Python's identifier grammar; (S2) every write of the look-ahead loops happens at bracket depth 0 and lambda colons are paired by count. (N1) only a non-zero decimal integer is rejected for leading zeros; `007j`, `00.5`, `00` stay valid. (E1) every expression context of the grammar accepts the reviewed level; (O2) lists built in actions grow in source order."),
  "C02": ("scenario execution of Lexer::next_char with evaluated byte amounts (N1); provenance of ranges assigned in function.rs/context.rs/string.rs (R9)",
          " Also: (R9) keyword-argument ranges are exactly the @L/@R pair handed over by the grammar; no hand-written range is derived from a child's start()/end()."),
  "C03": ("site-independent discharges (window indices, position advances, counters, dominated unwraps) applied per site so that extracting a helper does not create an unreviewed obligation; function summaries of the consuming helpers by least fixpoint (P3); dimension analysis of TextSize values over MIR value-flow facts (U2); thorough tier repeats the MIR rules under --features full-lexer and all-nodes-with-ranges; overflow-checked subtractions on unsigned types inventoried as their own kind from MIR binary-operation facts",
          " Also: (P3) every normal-return path of consume_normal/consume_character and of each consuming helper consumes a character or emits a token; (U2) no length or constant flows into a position sink. Unsigned decrements need a reviewed guard (`unsigned-sub` sites)."),
- "C04": ("interpretation of compare_strict over the 3x3 (tabs, spaces) orderings; exit summaries (decisions -> Err/Ok) of validate_pos_params and parse_args independent of return style; structural look-ahead-before-consumption rule for numeric shape checks; exits of lex_normal_number for the placement of the leading-zero error; guard-before-use rule for blank f-string fields (S2)",
-         " Also: (S2) an f-string field that is empty after trimming is rejected in both arms that end the expression text."),
+ "C04": ("interpretation of compare_strict over the 3x3 (tabs, spaces) orderings; exit summaries (decisions -> Err/Ok) of validate_pos_params and parse_args independent of return style; structural look-ahead-before-consumption rule for numeric shape checks; exits of lex_normal_number for the placement of the leading-zero error; guard-before-use rule for blank f-string fields (S2); expression-level wiring table (E1)",
+         " Also: (S2) an f-string field that is empty after trimming is rejected in both arms that end the expression text. (E1) no context accepts a wider expression level than reviewed."),
  "C05": ("character-class based classification of the layout arms; end-of-input branch read structurally",
          ""),
  "C06": ("radix forwarding rule over the radix-parameterised lexer functions (R2); bound of the \\N{name} length guard compared with the longest name in the locked unicode_names2 data (N2); evaluation of the backslash arm's guard for each of the seven string kinds (K1); exits of lex_normal_number (Z1)",
          " Also: (R2) digits, separator look-ahead and value conversion use the literal's own radix; (N2) no known Unicode name is rejected by length. (K1) escapes are decoded exactly in the non-raw kinds; (Z1) multi-digit zeros and zero-led floats/imaginaries keep their values."),
- "C08": ("position comparisons only (nothing may branch on a position) instead of arithmetic tables; character-folding scenarios of next_char; three-way agreement of the feature-gated trivia kinds with the interpreted start_of_line update (S2); evaluation of every match on raw window slots over all windows of {LF, CR, letter, end of input} (N3)",
-         " Also: (N3) wherever the raw window is tested for a line break, LF and a lone CR select the same arm."),
+ "C08": ("position comparisons only (nothing may branch on a position) instead of arithmetic tables; character-folding scenarios of next_char; three-way agreement of the feature-gated trivia kinds with the interpreted start_of_line update (S2); evaluation of every match on raw window slots over all windows of {LF, CR, letter, end of input} (N3); expression-level wiring table (E1); G1 regeneration as premise of the grammar-level rules",
+         " Also: (N3) wherever the raw window is tested for a line break, LF and a lone CR select the same arm. (E1) acceptance does not depend on redundant parentheses: each context accepts the reviewed level."),
  "C09": ("dimension analysis of TextSize values over MIR value-flow facts replaces the literal/arithmetic site tables: positions vs lengths, no position+position, no length flowing into a position sink (D1); relative-advance rule for the lexer position (N1); entry-point mode consistency (F4)",
          " (D1) replaces the tabled-site wording above: every position is start offset + consumed bytes +/- lengths by dimension analysis; (F4) each typed entry point lexes and parses in its own mode."),
- "C11": ("lexical separation of word tokens (literal pieces ending/starting in identifier characters are the reviewed ones; the lambda keyword separator interpreted over parameter-list shapes) (K1); f-string field opening decided on the rendered text, braces doubled (F1); exact integrality test of the float renderer (N1); path enumeration of every unparser arm with the set of fields mentioned per path (R1); evaluation of the infinite-constant guards over finite/infinite components (N2)",
-         " Also: (K1/F1) the rendering re-lexes into the intended tokens; (N1) only exact integers take the `<digits>.0` rendering; (A1/A2) string and bytes constants are rendered by the escape module, whose layout pre-pass announces exactly the length its writer emits (partition evaluation shared with C16). (R1) no path through an arm renders the node without looking at every field it binds; (N2) `inf` is never written."),
+ "C10": ("cfg inventory extended to the grammar file (no cfg on a parse-affecting feature in python.lalrpop)", ""),
+ "C11": ("lexical separation of word tokens (literal pieces ending/starting in identifier characters are the reviewed ones; the lambda keyword separator interpreted over parameter-list shapes) (K1); f-string field opening decided on the rendered text, braces doubled (F1); exact integrality test of the float renderer (N1); path enumeration of every unparser arm with the set of fields mentioned per path (R1); evaluation of the infinite-constant guards over finite/infinite components (N2); expression-level wiring table (E1); G1 regeneration as premise",
+         " Also: (K1/F1) the rendering re-lexes into the intended tokens; (N1) only exact integers take the `<digits>.0` rendering; (A1/A2) string and bytes constants are rendered by the escape module, whose layout pre-pass announces exactly the length its writer emits (partition evaluation shared with C16). (R1) no path through an arm renders the node without looking at every field it binds; (N2) `inf` is never written. (E1) associativity and operand levels of the grammar are the reviewed ones the unparser's precedence table is built against."),
  "C12": ("order-preserving element-wise fold recognised as iterator chain, loop or helper", ""),
  "C13": ("re-basing rule for line-break searches on a tail slice (B1)", " Also: (B1) a position found in `&source[a..]` is re-based by `a` (sibling agreement of init and locate_inner)."),
  "C16": ("interpretation of is_printable with the category predicates as free booleans (P1)", " Also: (P1) printable = not Other and not Separator, depending on nothing else."),
